@@ -288,10 +288,19 @@ def run_check(prop, tier, seed, spec, work, t0):
         for v in (s["Violations"] or []):
             key = vkey(entry, v)
             if key in viol_by_key:
-                viol_by_key[key]["count"] += 1
+                rec = viol_by_key[key]
+                rec["count"] += 1
+                # up to two more counterexamples per key are replayed as well: code whose behaviour depends
+                # on Go's map iteration order may take another path natively than the one the engine took,
+                # and one counterexample that reproduces is enough
+                if continue_native and len(rec["alts"]) < 2:
+                    acid = f"{rec['cid']}.{len(rec['alts']) + 1}"
+                    rec["alts"].append((acid, v))
+                    cases_by_pkg.setdefault(r["pkg"], []).append(case_of(r["pkg"], entry, v["Witness"], acid))
+                    expect[acid] = (v["Witness"].get("Expect", "?"), obs_of(v["Witness"]), r["pkg"], entry, v["Witness"])
                 continue
             cid = f"{entry}#v{len(viol_by_key)}"
-            viol_by_key[key] = {"key": key, "count": 1, "v": v, "cid": cid, "pkg": r["pkg"], "entry": entry, "no_native": not continue_native}
+            viol_by_key[key] = {"key": key, "count": 1, "v": v, "cid": cid, "pkg": r["pkg"], "entry": entry, "no_native": not continue_native, "alts": []}
             if not continue_native:
                 continue
             cases_by_pkg.setdefault(r["pkg"], []).append(case_of(r["pkg"], entry, v["Witness"], cid))
@@ -315,6 +324,7 @@ def run_check(prop, tier, seed, spec, work, t0):
                 inconclusive.append(f"native replay for {rel} failed: {e}")
             native_s += time.time() - t1
     confirmed = []
+    not_reproduced = {}
     engine_only_confirmed = set()
     for cid, (exp, obs, pkg, entry, w) in expect.items():
         if spec.get("no_native"):
@@ -357,7 +367,16 @@ def run_check(prop, tier, seed, spec, work, t0):
                 confirmed.append(cid)
                 engine_only_confirmed.add(cid)
             else:
-                inconclusive.append(f"counterexample {cid} ({exp}) does not reproduce natively (native outcome: {outc})")
+                not_reproduced[cid] = f"counterexample {cid} ({exp}) does not reproduce natively (native outcome: {outc})"
+    for key, rec in viol_by_key.items():
+        cids = [(rec["cid"], rec["v"])] + rec["alts"]
+        hit = next(((c, v) for c, v in cids if c in confirmed), None)
+        if hit:
+            rec["cid"], rec["v"] = hit  # the replay file carries a counterexample that reproduced
+        else:
+            for c, _ in cids:
+                if c in not_reproduced:
+                    inconclusive.append(not_reproduced[c])
 
     # ---- verdict ----
     known = [k for k in load_known() if k.get("property") == prop]
